@@ -5,51 +5,57 @@
 (* exceeds `size` in a carry-over buffer and reports EOF only after the        *)
 (* sentinel was seen and the carry-over is empty.                              *)
 (* Two processes (thread, reader) + the peer: TLC explores every interleaving. *)
+(* The caller may reap the child (wait() / poll() set proc.returncode) between  *)
+(* two reads once it has exited: an exited, reaped child says nothing about     *)
+(* what the thread has already moved from the pipe to the queue.                *)
 EXTENDS Naturals, Integers, Sequences, FiniteSets, TLC
 
-CONSTANTS MaxUnits, MaxWrite, Sizes, MaxCalls, ThreadChunk
+CONSTANTS MaxUnits, MaxWrite, Sizes, MaxCalls, ThreadChunk,
+          ReapShortcut      \* FALSE: the code as written; TRUE (model sensitivity only): "child reaped and queue
+                            \* momentarily empty" is taken for the end of the stream
 
 VARIABLES written, plo, peerOpen,            \* peer -> pipe; how much the thread has taken from the pipe
           tpc, tbuf,                         \* reader thread: "read" | "put" | "puteof" | "done"; chunk in hand
           queue,                             \* sequence of chunk sizes; 0 is the end-of-stream sentinel (None)
-          pc, size, buf, carry, reachedEof, flagEof, ret, delivered, ncalls
+          pc, size, buf, carry, reachedEof, flagEof, ret, delivered, ncalls,
+          reaped                             \* the caller has called wait()/poll() on the exited child (proc.returncode is set)
 
-vars == <<written, plo, peerOpen, tpc, tbuf, queue, pc, size, buf, carry, reachedEof, flagEof, ret, delivered, ncalls>>
+vars == <<written, plo, peerOpen, tpc, tbuf, queue, pc, size, buf, carry, reachedEof, flagEof, ret, delivered, ncalls, reaped>>
 
 Min(a, b) == IF a <= b THEN a ELSE b
 Avail == written - plo
 
 Init == /\ written = 0 /\ plo = 0 /\ peerOpen = TRUE /\ tpc = "read" /\ tbuf = 0 /\ queue = <<>>
         /\ pc = "idle" /\ size = 1 /\ buf = 0 /\ carry = 0 /\ reachedEof = FALSE /\ flagEof = FALSE
-        /\ ret = [kind |-> "none", n |-> 0] /\ delivered = 0 /\ ncalls = 0
+        /\ ret = [kind |-> "none", n |-> 0] /\ delivered = 0 /\ ncalls = 0 /\ reaped = FALSE
 
 PeerWrite(n) == /\ peerOpen /\ written + n <= MaxUnits /\ written' = written + n
-                /\ UNCHANGED <<plo, peerOpen, tpc, tbuf, queue, pc, size, buf, carry, reachedEof, flagEof, ret, delivered, ncalls>>
+                /\ UNCHANGED <<plo, peerOpen, tpc, tbuf, queue, pc, size, buf, carry, reachedEof, flagEof, ret, delivered, ncalls, reaped>>
 PeerClose    == /\ peerOpen /\ peerOpen' = FALSE
-                /\ UNCHANGED <<written, plo, tpc, tbuf, queue, pc, size, buf, carry, reachedEof, flagEof, ret, delivered, ncalls>>
+                /\ UNCHANGED <<written, plo, tpc, tbuf, queue, pc, size, buf, carry, reachedEof, flagEof, ret, delivered, ncalls, reaped>>
 
 (* ---- the reader thread: _read_incoming ------------------------------------------------------- *)
 ThreadRead(n) ==    \* buf = os.read(fileno, 1024): blocks until data or end of stream
   /\ tpc = "read"
   /\ IF Avail > 0 THEN /\ n \in 1..Min(Avail, ThreadChunk) /\ plo' = plo + n /\ tbuf' = n /\ tpc' = "put"
      ELSE /\ ~peerOpen /\ n = 0 /\ tbuf' = 0 /\ tpc' = "puteof" /\ UNCHANGED plo
-  /\ UNCHANGED <<written, peerOpen, queue, pc, size, buf, carry, reachedEof, flagEof, ret, delivered, ncalls>>
+  /\ UNCHANGED <<written, peerOpen, queue, pc, size, buf, carry, reachedEof, flagEof, ret, delivered, ncalls, reaped>>
 ThreadPut ==
   /\ tpc \in {"put", "puteof"}
   /\ queue' = Append(queue, tbuf)                    \* 0 = the None sentinel
   /\ tpc' = IF tpc = "put" THEN "read" ELSE "done"
-  /\ UNCHANGED <<written, plo, peerOpen, tbuf, pc, size, buf, carry, reachedEof, flagEof, ret, delivered, ncalls>>
+  /\ UNCHANGED <<written, plo, peerOpen, tbuf, pc, size, buf, carry, reachedEof, flagEof, ret, delivered, ncalls, reaped>>
 
 (* ---- read_nonblocking(size, timeout) ------------------------------------------------------------ *)
 CallStart(sz) ==
   /\ pc = "idle" /\ ncalls < MaxCalls
-  /\ size' = sz /\ ncalls' = ncalls + 1 /\ ret' = [kind |-> "none", n |-> 0]
+  /\ size' = sz /\ ncalls' = ncalls + 1
   /\ IF reachedEof
      THEN IF carry > 0 THEN /\ pc' = "idle" /\ ret' = [kind |-> "data", n |-> Min(carry, sz)] /\ carry' = carry - Min(carry, sz)
                             /\ delivered' = delivered + Min(carry, sz) /\ UNCHANGED <<buf, flagEof>>
           ELSE /\ pc' = "idle" /\ flagEof' = TRUE /\ ret' = [kind |-> "EOF", n |-> 0] /\ UNCHANGED <<buf, carry, delivered>>
-     ELSE /\ pc' = "drain" /\ buf' = carry /\ UNCHANGED <<carry, flagEof, delivered>>
-  /\ UNCHANGED <<written, plo, peerOpen, tpc, tbuf, queue, reachedEof>>
+     ELSE /\ pc' = "drain" /\ buf' = carry /\ ret' = [kind |-> "none", n |-> 0] /\ UNCHANGED <<carry, flagEof, delivered>>
+  /\ UNCHANGED <<written, plo, peerOpen, tpc, tbuf, queue, reachedEof, reaped>>
 
 \* while size and len(buf) < size: get_nowait()  (Empty -> break; None -> reached eof, break)
 Drain ==
@@ -57,18 +63,26 @@ Drain ==
   /\ IF buf < size /\ queue # <<>> THEN
         IF Head(queue) = 0 THEN /\ reachedEof' = TRUE /\ queue' = Tail(queue) /\ pc' = "ret" /\ UNCHANGED buf
         ELSE /\ buf' = buf + Head(queue) /\ queue' = Tail(queue) /\ UNCHANGED <<pc, reachedEof>>
-     ELSE /\ pc' = "ret" /\ UNCHANGED <<buf, queue, reachedEof>>
-  /\ UNCHANGED <<written, plo, peerOpen, tpc, tbuf, size, carry, flagEof, ret, delivered, ncalls>>
+     ELSE /\ pc' = "ret" /\ UNCHANGED <<buf, queue>>
+          /\ reachedEof' = (IF ReapShortcut /\ queue = <<>> /\ buf = 0 /\ reaped THEN TRUE ELSE reachedEof)
+  /\ UNCHANGED <<written, plo, peerOpen, tpc, tbuf, size, carry, flagEof, ret, delivered, ncalls, reaped>>
 
 \* r, self._buf = buf[:size], buf[size:]
 Ret ==
   /\ pc = "ret"
   /\ ret' = [kind |-> "data", n |-> Min(buf, size)] /\ carry' = buf - Min(buf, size)
   /\ delivered' = delivered + Min(buf, size) /\ pc' = "idle"
-  /\ UNCHANGED <<written, plo, peerOpen, tpc, tbuf, queue, size, buf, reachedEof, flagEof, ncalls>>
+  /\ UNCHANGED <<written, plo, peerOpen, tpc, tbuf, queue, size, buf, reachedEof, flagEof, ncalls, reaped>>
+
+\* the caller reaps the child between two reads: PopenSpawn.wait() (or proc.poll()) once the child has exited.
+\* The code as written never looks at proc.returncode while reading, so nothing else changes.
+Reap ==
+  /\ pc = "idle" /\ ~peerOpen /\ ~reaped
+  /\ reaped' = TRUE
+  /\ UNCHANGED <<written, plo, peerOpen, tpc, tbuf, queue, pc, size, buf, carry, reachedEof, flagEof, ret, delivered, ncalls>>
 
 Next == \/ \E n \in 1..MaxWrite : PeerWrite(n)
-        \/ PeerClose
+        \/ PeerClose \/ Reap
         \/ \E n \in 0..ThreadChunk : ThreadRead(n)
         \/ ThreadPut
         \/ \E sz \in Sizes : CallStart(sz)
